@@ -2,6 +2,9 @@
 from __future__ import annotations
 
 import asyncio
+import json
+import random
+import re
 import struct
 from unittest import mock
 
@@ -9,7 +12,9 @@ from cryptography.hazmat.primitives.asymmetric import ed25519, x25519
 from cryptography.hazmat.primitives.ciphers.aead import ChaCha20Poly1305
 
 from harness import cryptoval, refacc, simnet
-from harness.common import Ctx, Driver, compare_with_model, hx, load_corpus
+from harness.acc import Accessory, http
+from harness.common import Ctx, Driver, compare_with_model, hx, load_corpus, unhx
+from harness.rcsim import settle
 
 import aiohomekit.exceptions as E
 import aiohomekit.protocol as P
@@ -18,12 +23,22 @@ from aiohomekit.protocol.tlv import TLV, TlvParseException
 ID = "C01"
 RULE = ("honest exchanges over random records/ephemerals; adversarial M2/M4: every single-bit flip of the accessory public key, a sample of bit and byte corruptions of the encrypted "
         "data and of the decrypted sub-TLV re-sealed under the right key, removal/duplication/reordering of TLV items, wrong long-term key, wrong identifier, signature over a permuted "
-        "transcript, M2 recorded from another exchange, 31/33-byte keys, low-order key, M4 with error/foreign state; resumption with right and wrong secrets; the three key install sites. "
-        "non-trivial = distinct (mutation class, field, outcome class)")
-TRUSTED = ["reference accessory harness/refacc.py (cryptography)", "Lean Real X25519/Ed25519/HKDF/ChaCha20-Poly1305 (validated against cryptography each run)"]
+        "transcript, M2 recorded from another exchange, 31/33-byte keys, low-order key, M4 with error/foreign state; resumption with right and wrong secrets; the three key install sites; "
+        "refusals: M2 / M4 / pair-resume replies carrying an Error item of ANY value (every defined code, 0x00, reserved and vendor one-byte codes, every defined code with one bit flipped, empty, "
+        "multi-byte and fragmented values) before / after / without the State item and next to otherwise genuine fields, as a decoded list, through the IP/CoAP expected-type filter and as the BLE dict; "
+        "IP session histories on the simulated network (unpatched IpPairing, genuine accessory slow to answer M1 / M3 by 0..31 s, optionally a relaying man in the middle that answers unencrypted requests itself): "
+        "{first connection, session lost by peer close / reset / request time-out / close()} x {pair-verify that succeeds, is refused with any Error value, is forged, stalls or is cut} x callers on every "
+        "request entry point at instants before the loss, during the TCP connect, inside the M2 and M4 windows (ends included) and after - a grid over ending x window x entry point plus random histories of 2-4 sessions. "
+        "non-trivial = distinct (mutation class, field, outcome class) / (session endings, call outcomes)")
+TRUSTED = ["reference accessory harness/refacc.py (cryptography)", "Lean Real X25519/Ed25519/HKDF/ChaCha20-Poly1305 (validated against cryptography each run)",
+           "harness/simnet.py virtual-time loop and in-memory transport; harness/acc.py scaffold accessory (real pair-verify, AEAD framing) and its bookkeeping of what arrived on each connection, framed or not"]
 ASSUMPTIONS = ["unforgeability of Ed25519 and integrity of ChaCha20-Poly1305 (never theorems); the tamper theorems are consequences of the interface laws (Crypto.Laws), proved satisfiable by a toy instance",
                "the controller's ephemeral key is pinned by patching X25519PrivateKey.generate in aiohomekit.protocol",
-               "legitimacy oracle: success is expected iff the values the controller actually uses (dict view: last occurrence of each type) are the genuine ones of this exchange"]
+               "legitimacy oracle: success is expected iff the values the controller actually uses (dict view: last occurrence of each type) are the genuine ones of this exchange; "
+               "a reply that carries an Error item is a refusal whatever its value",
+               "session histories: a TCP connect takes non-zero (virtual) time; 'the accessory accepted' = the scaffold accessory has sent M4 on that connection; session oracles: nothing but pair-verify POSTs reaches a "
+               "connection before its M4, everything after it opens under that session's keys, is_connected/is_available imply an M4 on the connection opened last, a call that returns has been carried by a framed request "
+               "and never returns what the man in the middle sent unencrypted"]
 EXPLANATION = "Lean theorems C01_* over the model of get_session_keys with an abstract crypto interface; byte-exact differential tie with executable crypto; adversarial streams judged by an independent accessory"
 
 
@@ -83,10 +98,11 @@ def run(ctx: Ctx, driver: Driver):
     cryptoval.validate(ctx, driver, 4)
     cases, outs, lines = [], [], []
 
-    def one(kind, ident, eph, acc, m2, m4, legit, to_model=True):
+    def one(kind, ident, eph, acc, m2, m4, legit, to_model=True, why="a reply the paired accessory did not produce for this exchange"):
         out, m1, m3, keys = exchange(ident, eph, m2, m4)
         ctx.evaluations += 1
-        case = {"stream": "verify", "kind": kind, "eph": hx(eph), "m2": [[k, hx(v)] for k, v in m2], "m4": [[k, hx(v)] for k, v in m4]}
+        case = {"stream": "verify", "kind": kind, "eph": hx(eph), "m2": [[k, hx(v)] for k, v in m2], "m4": [[k, hx(v)] for k, v in m4], "legit": bool(legit),
+                "record": {"acc_id": hx(ident.acc_id), "acc_ltsk": hx(ident.acc_ltsk.private_bytes(**refacc.PRIV)), "ios_id": ident.ios_id, "ios_ltsk": hx(ident.ios_ltsk.private_bytes(**refacc.PRIV))}}
         cls = out.split(" ")[0] + (":" + out.split(" ")[1] if out.startswith("err") else "")
         ctx.nontrivial.add((kind, cls))
         ctx.dist[f"{kind}:{cls}"] += 1
@@ -105,7 +121,7 @@ def run(ctx: Ctx, driver: Driver):
                     ctx.violation(f"verify/{kind}/keys-differ", f"{kind}: controller and accessory hold different keys", case)
         else:
             if out.startswith("ok"):
-                ctx.violation(f"verify/{kind}/accepted", f"{kind}: session keys were returned for a reply the paired accessory did not produce for this exchange", case)
+                ctx.violation(f"verify/{kind}/accepted", f"{kind}: session keys were returned for {why}", case)
         # the same exchange as the IP and CoAP transports see it: the reply is re-encoded and decoded with the
         # expected-type filter the generator asked for (the direct form above is what BLE hands over)
         def expressible(items):
@@ -130,7 +146,7 @@ def run(ctx: Ctx, driver: Driver):
             if not acc.check_m3(wm3) or (wkeys[1], wkeys[2], wkeys[3]) != (w, r, ev):
                 ctx.violation(f"verify/{kind}/wire/keys-differ", f"{kind} (IP/CoAP decoding): accessory rejects M3 or keys differ", case)
         if not legit and wout.startswith("ok"):
-            ctx.violation(f"verify/{kind}/wire/accepted", f"{kind} (IP/CoAP decoding): session keys were returned although the accessory did not produce/accept this exchange ({wout[:40]})", case)
+            ctx.violation(f"verify/{kind}/wire/accepted", f"{kind} (IP/CoAP decoding): session keys were returned although the accessory did not produce/accept this exchange - {why} ({wout[:40]})", case)
         if to_model:
             pd = ident
             cases.append(case)
@@ -232,6 +248,88 @@ def run(ctx: Ctx, driver: Driver):
     compare_with_model(ctx, "verify", cases, outs, lines, driver)
     resume_stream(ctx, driver, rng, rb)
     install_sites(ctx, rng, rb)
+    # ---- rejections: M2/M4 carrying an Error item with ANY value (the accessory did not accept)
+    n0 = len(cases)
+    for cls, val in error_values(rng, rb, ctx.budget(10, 248)):
+        ident, eph, acc, ios_pk, m2 = fresh()
+        err = (7, val)
+        shapes = [("m4-errval", m2, [(6, b"\x04"), err]), ("m4-errval-first", m2, [err, (6, b"\x04")]), ("m4-errval-no-state", m2, [err]),
+                  ("m2-errval", [(6, b"\x02"), err], M4), ("m2-errval-no-state", [err], M4), ("m2-errval-appended", m2 + [err], M4), ("m2-errval-first", [err] + m2, M4)]
+        if not ctx.thorough() and cls in ("bitflip", "unknown"):
+            # the quick tier keeps every M4 shape (the reply to the controller's proof) and samples the M2 shapes
+            shapes = shapes[:3] + rng.sample(shapes[3:], 2)
+        # the executable model costs ~10 ms of Lean X25519/Ed25519 per line: the quick tier ties a sample of the values to it
+        tied = ctx.thorough() or rng.random() < (0.5 if cls in ("defined", "zero", "empty", "multi") else 0.15)
+        for shape, mm2, mm4 in shapes:
+            one(f"{shape}-{cls}", ident, eph, acc, mm2, mm4, False, to_model=tied,
+                why=f"an exchange the accessory refused: its {'M2' if shape.startswith('m2') else 'M4 (the answer to the controller proof)'} carries Error={hx(val)[:16]} ({cls} value)")
+    compare_with_model(ctx, "verify-errval", cases[n0:], outs[n0:], lines[n0:], driver)
+    resume_error_values(ctx, driver, rng, rb)
+    session_stream(ctx, rng)
+
+
+DEFINED_ERRORS = (1, 2, 3, 4, 5, 6, 7)  # table 5-5 of the specification: the only codes a name exists for
+
+
+def error_values(rng, rb, n_unknown):
+    """values an Error item can carry, by class: every defined code, 0x00, reserved / vendor one-byte codes (both ends of the
+    range and a sample), every defined code with one bit flipped, the empty value, multi-byte values (a defined code followed
+    or preceded by other bytes, values that travel as two TLV fragments)"""
+    vals = [("defined", bytes([c])) for c in DEFINED_ERRORS] + [("zero", b"\x00")]
+    flips = sorted({c ^ (1 << b) for c in DEFINED_ERRORS for b in range(8)} - set(DEFINED_ERRORS) - {0})
+    vals += [("bitflip", bytes([v])) for v in flips]
+    rest = [v for v in range(8, 256) if v not in flips]
+    unknown = [8, 9, 0x7F, 0x80, 0xFE, 0xFF] + rng.sample(rest, min(n_unknown, len(rest)))
+    vals += [("unknown", bytes([v])) for v in dict.fromkeys(unknown) if v not in flips]
+    vals.append(("empty", b""))
+    multi = [b"\x02\x00", b"\x00\x02", b"\x02\x02", b"\x00\x00", b"\x01\x00\x00\x00", bytes([rng.choice(DEFINED_ERRORS)]) + rb(rng.randrange(1, 4)),
+             rb(rng.randrange(2, 6)), b"\x02" * 255, b"\x02" * 256, bytes(300)]
+    vals += [("multi", v) for v in multi]
+    return vals
+
+
+def resume_error_values(ctx, driver, rng, rb):
+    """a pair-resume reply that is genuine in every other respect but carries an Error item (any value, either position) is a
+    refusal: no keys.  Handed over as a decoded list and as BLE does (bytes -> TLV.decode_bytearray -> dict)."""
+    cases, outs, lines = [], [], []
+    vals = error_values(rng, rb, ctx.budget(4, 248))
+    if not ctx.thorough():
+        vals = [v for v in vals if v[0] not in ("bitflip",)] + rng.sample([v for v in vals if v[0] == "bitflip"], 8)
+    for cls, val in vals:
+        ident = refacc.Identity(rb)
+        prev, sid, eph, new_sid = rb(32), rb(8), rb(32), rb(8)
+
+        def derive(salt, info, length=32, prev=prev):
+            return refacc.hk(prev, salt, info, length)
+        ios_pk = x25519.X25519PrivateKey.from_private_bytes(eph).public_key().public_bytes(**refacc.RAW)
+        respkey = refacc.hk(prev, ios_pk + new_sid, b"Pair-Resume-Response-Info")
+        tag = ChaCha20Poly1305(respkey).encrypt(b"\0\0\0\0PR-Msg02", b"", b"")
+        good = [(6, b"\x02"), (0, b"\x06"), (14, new_sid), (5, tag)]
+        for pos, m2 in (("last", good + [(7, val)]), ("first", [(7, val)] + good), ("after-state", good[:1] + [(7, val)] + good[1:])):
+            for form in ("list", "ble-dict"):
+                with pinned(eph):
+                    g = P.get_session_keys(ident.pairing_data(), sid, derive)
+                    g.send(None)
+                ctx.evaluations += 1
+                case = {"stream": "resume-errval", "cls": cls, "pos": pos, "form": form, "prev": hx(prev), "sid": hx(sid), "eph": hx(eph), "m2": [[k, hx(v)] for k, v in m2]}
+                try:
+                    g.send(L(m2) if form == "list" else dict(TLV.decode_bytearray(bytearray(TLV.encode_list(L(m2))))))
+                    out = "continued"  # went on with a full exchange: M3 yielded although the accessory reported an error
+                except StopIteration:
+                    out = "some"
+                except Exception as e:  # noqa: BLE001
+                    out = "none:" + type(e).__name__
+                ctx.nontrivial.add(("resume-errval", cls, pos, out.split(":")[0]))
+                ctx.dist[f"resume-errval:{cls}:{out}"] += 1
+                if out == "some":
+                    ctx.violation(f"resume/errval-{cls}/accepted", f"a resume reply carrying Error={hx(val)[:16]} ({cls}, {pos}, handed over as {form}) yielded session keys", case)
+                elif out == "continued":
+                    ctx.violation(f"resume/errval-{cls}/continued", f"a resume reply carrying Error={hx(val)[:16]} ({cls}, {pos}, handed over as {form}) did not end the attempt", case)
+                if form == "list":
+                    cases.append(case)
+                    outs.append("none" if out != "some" else "some")
+                    lines.append(f"pv.resume3 {hx(prev)} {hx(eph)} {toks(m2)}")
+    compare_with_model(ctx, "resume-errval", cases, outs, lines, driver)
 
 
 def resume_stream(ctx, driver, rng, rb):
@@ -467,5 +565,427 @@ def install_sites(ctx, rng, rb):
     loop.close()
 
 
+# ===================================================================== IP sessions on the simulated network
+# Histories of an unpatched IpPairing against a genuine accessory (real pair-verify, AEAD framing) that can be slow to answer
+# M1 / M3, with - optionally - a man in the middle in front of it that relays /pair-verify and encrypted frames verbatim (it
+# learns no key) and answers whatever arrives unencrypted by itself.  Everything is judged from what the accessory side saw.
+
+GENUINE, FORGED = "GENUINE", "FORGED"
+DEFAULT_PLAN = {"d0": 0.01, "d2": 0.0, "d4": 0.0, "dr": 0.0, "verify": "ok", "plain": "470"}
+ENTRIES = {  # public entry points of IpPairing: (method, target prefix of the request that carries the call, call)
+    "la": ("GET", "/accessories", lambda p: p.list_accessories_and_characteristics()),
+    "get": ("GET", "/characteristics", lambda p: p.get_characteristics([(1, 2)])),
+    "put": ("PUT", "/characteristics", lambda p: p.put_characteristics([(1, 3, True)])),
+    "lp": ("POST", "/pairings", lambda p: p.list_pairings()),
+    "img": ("POST", "/resource", lambda p: p.image(1, 4, 4)),
+    "sub": (None, None, lambda p: p.subscribe([(1, 3)])),  # returns normally also when it could not connect: wire oracles only
+    "putf": ("PUT", "/characteristics", lambda p: p.put_characteristics([(1, 3, False)])),
+}
+ENDS = ("peer_close", "peer_reset", "close", "stall")
+
+
+def database(mark):
+    return [{"aid": 1, "services": [{"iid": 1, "type": "3E", "characteristics": [
+        {"iid": 2, "type": "23", "format": "string", "perms": ["pr"], "value": mark},
+        {"iid": 3, "type": "25", "format": "bool", "perms": ["pr", "pw", "ev"], "value": False}]}]}]
+
+
+def answer(mark, method, target, body):
+    """the answer to an application request: from the accessory (GENUINE) or made up by the man in the middle (FORGED)"""
+    J = b"application/hap+json"
+    if target.startswith("/accessories"):
+        return http(json.dumps({"accessories": database(mark)}).encode(), J)
+    if target.startswith("/characteristics") and method == "GET":
+        rows = []
+        for i in (target.split("id=", 1)[1].split(",") if "id=" in target else []):
+            try:
+                rows.append({"aid": int(i.split(".")[0]), "iid": int(i.split(".")[1]), "value": mark})
+            except (ValueError, IndexError):
+                pass
+        return http(json.dumps({"characteristics": rows}).encode(), J)
+    if target.startswith("/characteristics"):
+        return b"HTTP/1.1 204 No Content\r\n\r\n"
+    if target == "/pairings":
+        return http(refacc.tlv([(6, b"\x02"), (1, (mark + "-CONTROLLER").encode()), (3, bytes(32)), (11, b"\x01")]))
+    if target == "/resource":
+        return http((mark + "-IMAGE").encode(), b"image/jpeg")
+    return http(b"{}", J)
+
+
+class SessionAccessory(Accessory):
+    """harness/acc.py's accessory with per-connection plans {d0: TCP connect time, d2 / d4: how long it takes to answer M1 / M3,
+    dr: how long to answer a request of the session, verify: acc.py's verify mode, plain: what happens to a request that arrives
+    unencrypted (forge = the man in the middle answers it, 470 = the accessory refuses it as the specification says, ignore)} and
+    the bookkeeping the oracles use"""
+
+    def __init__(self, loop, net, rb):
+        super().__init__(loop, net, rb, accessories=database(GENUINE))
+        self.plans = []
+        self.mute = False
+        self.probe = None  # what the pairing object reports as "connected" - observed, never used as a reference
+        self.early = []    # (connection, time, at) observations of "connected" before the accessory had sent M4 on that connection
+        self.notes = []
+
+    def on_connect(self, t):
+        super().on_connect(t)
+        s = self.sessions[t]
+        s.plan = dict(DEFAULT_PLAN, **(self.plans.pop(0) if self.plans else {}))
+        s.mode = s.plan["verify"]
+        s.m4_sent = False
+        s.plain = []   # (time, what): anything but a pair-verify POST that arrived before this accessory had sent M4
+        s.unauth = []  # (time, what): after M4, bytes that are not AEAD frames under this session's keys
+        s.framed = []  # (time, method, target): requests that arrived AEAD-framed under this session's keys
+        self.observe("tcp-connected")
+
+    def observe(self, at):
+        """the pairing may report a session only if the accessory has sent M4 on the connection that was opened last"""
+        try:
+            up = bool(self.probe()) if self.probe else False
+        except Exception as e:  # noqa: BLE001
+            self.notes.append(f"is_connected raised {type(e).__name__}")
+            return
+        if up and (not self.order or not self.order[-1].m4_sent):
+            self.early.append((self.order[-1].idx if self.order else -1, self.loop.time(), at))
+
+    def on_write(self, t, data):
+        s = self.sessions[t]
+        now = self.loop.time()
+        self.observe("write")
+        if s.secure:
+            s.ebuf += data
+            while len(s.ebuf) >= 2:
+                n = struct.unpack("<H", s.ebuf[:2])[0]
+                if n <= 1024 and len(s.ebuf) < 2 + n + 16:
+                    break
+                try:
+                    if n > 1024:
+                        raise ValueError("no frame is longer than 1024 bytes")
+                    plain = ChaCha20Poly1305(s.c2a).decrypt(struct.pack("<LQ", 0, s.rctr), s.ebuf[2:2 + n + 16], s.ebuf[:2])
+                except Exception:  # noqa: BLE001
+                    s.unauth.append((now, f"{len(s.ebuf)} bytes starting {s.ebuf[:24]!r}"))
+                    s.ebuf = b""
+                    self.loop.call_soon(t.peer_close)  # a genuine accessory ends a session whose framing broke
+                    return
+                s.rctr += 1
+                s.ebuf = s.ebuf[2 + n + 16:]
+                s.buf += plain
+        else:
+            s.buf += data
+            if len(s.buf) >= 8 and not re.match(rb"[A-Z]{3,7} /", s.buf[:9]):
+                # e.g. frames of a session the controller believes in although this accessory refused the proof
+                s.plain.append((now, f"{len(s.buf)} bytes that are no HTTP request ({s.buf[:12]!r}...) were written"))
+                s.buf = b""
+                return
+        while True:
+            try:
+                req = self._take_request(s)
+            except Exception:  # noqa: BLE001
+                if s.secure:
+                    s.unauth.append((now, f"bytes that are no HTTP request: {s.buf[:24]!r}"))
+                else:
+                    s.plain.append((now, f"bytes that are no HTTP request ({s.buf[:24]!r}) were written"))
+                s.buf = b""
+                return
+            if req is None:
+                return
+            method, target, body = req
+            verify = method == "POST" and target == "/pair-verify"
+            if s.secure:
+                s.framed.append((now, method, target))
+            elif not verify:
+                s.plain.append((now, f"'{method} {target}' was written UNENCRYPTED"))
+            self.loop.call_soon(self._handle, t, bool(s.secure), method, target, body)
+
+    def _handle(self, t, framed, method, target, body):  # noqa: D102
+        s = self.sessions[t]
+        s.requests.append((method, target, body))
+        if t.closing or t.closed:
+            return
+        if not framed and method == "POST" and target == "/pair-verify":
+            try:
+                step = refacc.untlv(body).get(6)
+            except Exception:  # noqa: BLE001
+                step = None
+            d = s.plan["d2"] if step == b"\x01" else s.plan["d4"]
+            if d > 0:
+                self.loop.call_later(d, self._late_verify, t, s, body, step)
+            else:
+                self._late_verify(t, s, body, step)
+            return
+        if not framed:
+            if s.plan["plain"] == "forge":
+                t.feed(answer(FORGED, method, target, body))
+            elif s.plan["plain"] == "470":
+                t.feed(http(b"", code=b"470 Connection Authorization Required"))
+            return
+        if self.mute:
+            return
+        r = answer(GENUINE, method, target, body)
+        if s.plan["dr"] > 0:
+            self.loop.call_later(s.plan["dr"], self.send, t, r)
+        else:
+            self.send(t, r)
+
+    def _late_verify(self, t, s, body, step):
+        if t.closing or t.closed:
+            return
+        self.observe("M2-about-to-be-sent" if step == b"\x01" else "M4-about-to-be-sent")
+        if step not in (b"\x01", b"\x03") or (step == b"\x03" and s.va is None) or s.secure:
+            # not what a controller following the protocol sends: refuse
+            return self.send(t, http(refacc.tlv([(6, b"\x04" if step == b"\x03" else b"\x02"), (7, b"\x02")])))
+        try:
+            self._verify(t, s, body)
+        except Exception as e:  # noqa: BLE001
+            self.notes.append(f"accessory could not process a pair-verify request: {type(e).__name__}")
+            return t.peer_close()
+        if s.secure and not s.m4_sent:
+            s.m4_sent = True
+
+
+async def session_scenario(loop, hist):
+    """run one history; returns (problems, stats)"""
+    from unittest.mock import MagicMock
+
+    from aiohomekit.characteristic_cache import CharacteristicCacheMemory
+    from aiohomekit.controller.ip.pairing import IpPairing
+    rnd = random.Random(hist["seed"])
+    net = simnet.Net(loop)
+    acc = SessionAccessory(loop, net, lambda n: bytes(rnd.randrange(256) for _ in range(n)))
+    connect_now = net.start_connection
+
+    async def start_connection(addr_infos, **kw):
+        # a TCP connect takes a round trip: it never completes without the loop running in between
+        await asyncio.sleep(max((acc.plans[0] if acc.plans else DEFAULT_PLAN).get("d0", 0.01), 0.001))
+        return await connect_now(addr_infos, **kw)
+    net.start_connection = start_connection
+    ctrl = MagicMock()
+    ctrl._char_cache = CharacteristicCacheMemory()
+    calls, tasks, problems = [], [], []
+    with net.patched():
+        p = IpPairing(ctrl, acc.pairing_data(["10.0.0.1"]))
+        acc.probe = lambda: bool(p.is_connected) or bool(p.is_available) or bool(p.connection.is_connected)
+
+        async def call(entry):
+            acc.observe("call " + entry)
+            rec = {"entry": entry, "start": loop.time(), "outcome": "pending"}
+            calls.append(rec)
+            try:
+                r = await ENTRIES[entry][2](p)
+                rec["outcome"], rec["none"], rec["result"] = "returned", r is None, repr(r)
+            except asyncio.CancelledError:
+                rec["outcome"] = "cancelled"
+                raise
+            except BaseException as e:  # noqa: BLE001
+                rec["outcome"] = "raised:" + type(e).__name__
+            finally:
+                rec["end"] = loop.time()
+
+        async def kick():
+            try:
+                await p.connection.ensure_connection()
+            except Exception:  # noqa: BLE001
+                pass
+
+        async def end(how):
+            if how in ("peer_close", "peer_reset"):
+                if net.open:
+                    getattr(net.open[-1], how)()
+            elif how == "close":
+                await p.close()
+            elif how == "stall":
+                # the accessory goes silent: the request layer gives the session up by itself after its time-out
+                if acc.probe() and net.open and acc.sessions[net.open[-1]].m4_sent:
+                    acc.mute = True
+                    t = asyncio.ensure_future(call("la"))
+                    await asyncio.wait([t], timeout=60)
+                    acc.mute = False
+
+        for ep in hist["epochs"]:
+            acc.plans = [dict(x) for x in ep["plans"]]  # for the connections opened from now on
+            if ep["end"] == "stall":
+                await end("stall")
+                timeline = []
+            else:
+                timeline = [(0.0, 0, "end", ep["end"])]
+            timeline += [(float(off), 2, "call", entry) for off, entry in ep["calls"]]
+            if ep.get("kick"):
+                timeline.append((0.0, 1, "kick", None))
+            base = loop.time() + max(0.0, -min([x[0] for x in timeline] or [0.0]))
+            for off, _, kind, arg in sorted(timeline, key=lambda x: (x[0], x[1])):
+                dt = base + off - loop.time()
+                if dt > 0:
+                    await asyncio.sleep(dt)
+                if kind == "end":
+                    await end(arg)
+                elif kind == "kick":
+                    tasks.append(asyncio.ensure_future(kick()))
+                else:
+                    tasks.append(asyncio.ensure_future(call(arg)))
+            pending = [t for t in tasks if not t.done()]
+            if pending:
+                await asyncio.wait(pending, timeout=200)
+            await asyncio.sleep(ep.get("idle", 0.5))
+            await settle(loop)
+            acc.observe("quiescent")
+        for t in tasks:
+            t.cancel()
+        try:
+            await p.close()
+        except Exception as e:  # noqa: BLE001
+            acc.notes.append(f"close raised {type(e).__name__}")
+        await settle(loop)
+    # ---- the property, stated on what the accessory side saw and on what the callers got
+    for s in acc.order:
+        for when, what in s.plain:
+            problems.append(("session/traffic-before-proof", f"connection {s.idx}, t={when:.3f}: {what} on a connection on which the accessory had not (yet) sent M4 - "
+                             "application traffic although the peer has not proved possession of the long-term key in this session (the accessory holds no session there)"))
+        for when, what in s.unauth:
+            problems.append(("session/not-under-session-keys", f"connection {s.idx}, t={when:.3f}: after M4 the controller wrote {what}, which does not open under this session's keys"))
+    for rec in calls:
+        if rec["outcome"] != "returned":
+            continue
+        method, prefix, _ = ENTRIES[rec["entry"]]
+        if FORGED in rec["result"]:
+            i = rec["result"].index(FORGED)
+            problems.append(("session/unauthenticated-answer-accepted", f"{rec['entry']} issued at t={rec['start']:.3f} returned ...{rec['result'][max(0, i - 60):i + 40]}... - an answer the man in the middle made up and sent unencrypted"))
+        if method is not None and not rec["none"]:
+            if not any(m == method and tg.startswith(prefix) and rec["start"] <= when <= rec["end"] for s in acc.order for when, m, tg in s.framed):
+                problems.append(("session/returned-without-authenticated-exchange", f"{rec['entry']} issued at t={rec['start']:.3f} returned normally ({rec['result'][:80]}) although the accessory received no "
+                                 f"{method} {prefix} under the keys of a verified session while the call ran"))
+    for idx, when, at in acc.early:
+        problems.append(("session/connected-before-proof", f"t={when:.3f} ({at}): the pairing reports is_connected / is_available although the accessory has not sent M4 on the connection opened last "
+                         f"(connection {idx}) - no proof of the long-term key, no keys"))
+    stats = {"connections": len(acc.order), "verified": sum(1 for s in acc.order if s.m4_sent), "calls": [(r["entry"], r["outcome"]) for r in calls],
+             "framed": sum(len(s.framed) for s in acc.order), "notes": acc.notes}
+    return problems, stats
+
+
+def run_session(hist):
+    loop = simnet.VLoop()
+    asyncio.set_event_loop(loop)
+    try:
+        return loop.run_until_complete(session_scenario(loop, hist))
+    finally:
+        try:
+            loop.run_until_complete(loop.shutdown_asyncgens())
+        except Exception:  # noqa: BLE001
+            pass
+        loop.close()
+
+
+def gen_plan(rng, ok=False):
+    return {"d0": rng.choice([0.001, 0.01, 0.01, 0.2]),
+            "d2": rng.choice([0.0, 0.05, 0.4, 0.4, 2.0, 2.0, 9.0, 12.0, 31.0]),
+            "d4": rng.choice([0.0, 0.0, 0.05, 0.4, 2.0, 9.0, 12.0]),
+            "dr": rng.choice([0.0, 0.0, 0.3]),
+            "verify": "ok" if ok or rng.random() < 0.75 else rng.choice(["badsig", "wrongid", "err12", "err16", "err22", "err10", "err1130", "err28", "err20", "err2255", "err2" + str(rng.randrange(8, 256)), "close1", "reset2", "close2", "hang", "http470", "exc"]),
+            "plain": rng.choice(["forge", "forge", "470", "ignore"])}
+
+
+def gen_history(rng):
+    epochs = []
+    for i in range(rng.choice([2, 2, 3, 3, 4])):
+        end = "first" if i == 0 else rng.choice(["peer_close", "peer_close", "peer_reset", "close", "stall"])
+        plan = gen_plan(rng, ok=(i == 0 and rng.random() < 0.8))
+        plans = [plan] + ([gen_plan(rng, ok=True)] if plan["verify"] != "ok" else [])
+        d0, d2, d4 = plan["d0"], plan["d2"], plan["d4"]
+        calls = []
+        for _ in range(rng.choice([0, 1, 1, 2, 3])):
+            w = rng.choice(["before", "tcp", "m2", "m2", "m2", "m4", "m4", "after"])
+            f = rng.choice([0.0, 0.001, 0.25, 0.5, 0.75, 0.999, 1.0, rng.random()])
+            off = {"before": -rng.choice([0.05, 0.2]), "tcp": d0 * f, "m2": d0 + d2 * f, "m4": d0 + d2 + d4 * f, "after": d0 + d2 + d4 + rng.choice([0.0, 0.1, 3.0])}[w]
+            calls.append([round(off, 6), rng.choice(list(ENTRIES))])
+        kick = end in ("first", "close") and (not calls or rng.random() < 0.5)
+        epochs.append({"end": end, "plans": plans, "calls": calls, "kick": kick, "idle": rng.choice([0.0, 0.5, 5.0])})
+    return {"stream": "session", "seed": rng.randrange(1 << 30), "epochs": epochs}
+
+
+def grid_histories(rng):
+    """every way a session can have ended before (none: the first connection) x the window of the new pair-verify (M1 sent and
+    M2 outstanding / M3 sent and M4 outstanding) x every entry point, the caller's request issued in the middle of the window,
+    a man in the middle in front of the accessory"""
+    out = []
+    for end in ("first",) + ENDS:
+        for window in ("m2", "m4"):
+            for entry in ENTRIES:
+                d = rng.choice([0.4, 2.0, 6.0])
+                plan = dict(DEFAULT_PLAN, d2=d if window == "m2" else 0.0, d4=d if window == "m4" else 0.0, plain="forge")
+                ep = {"end": end, "plans": [plan], "calls": [[round(plan["d0"] + d / 2, 6), entry]], "kick": end in ("first", "close"), "idle": 0.5}
+                first = {"end": "first", "plans": [dict(DEFAULT_PLAN)], "calls": [[0.5, rng.choice(["la", "get", "sub"])]] if rng.random() < 0.5 else [], "kick": True, "idle": 0.5}
+                out.append({"stream": "session", "seed": rng.randrange(1 << 30), "epochs": [ep] if end == "first" else [first, ep]})
+    return out
+
+
+def session_stream(ctx, rng):
+    hists = grid_histories(rng)
+    if not ctx.thorough():
+        hists = rng.sample(hists, ctx.budget(40, len(hists)))
+    hists += [gen_history(rng) for _ in range(ctx.budget(50, 4000))]
+    seen = set()
+    for hist in hists:
+        ctx.evaluations += 1
+        try:
+            problems, stats = run_session(hist)
+        except Exception as e:  # noqa: BLE001
+            problems, stats = [(f"session/exc {type(e).__name__}", f"the history could not be run to its end: {type(e).__name__}: {e}")], {"connections": 0, "verified": 0, "calls": [], "framed": 0, "notes": []}
+        ctx.nontrivial.add(("session", tuple(ep["end"] for ep in hist["epochs"]), tuple(sorted(o for _, o in stats["calls"]))))
+        ctx.dist[f"session:connections={min(stats['connections'], 6)}"] += 1
+        for entry, outcome in stats["calls"]:
+            ctx.dist[f"session:call:{entry}:{outcome}"] += 1
+        for ep in hist["epochs"]:
+            ctx.dist[f"session:end:{ep['end']}"] += 1
+        for n in stats["notes"]:
+            if n not in ctx.notes and len(ctx.notes) < 20:
+                ctx.notes.append("session: " + n)
+        if len(ctx.samples) < 8 and len(hist["epochs"]) > 1 and "session" not in seen:
+            seen.add("session")
+            ctx.samples.append(hist)
+        done = set()
+        for sig, text in problems:
+            if sig not in done:
+                done.add(sig)
+                ctx.violation(sig, text, hist)
+
+
 def replay(ctx, driver, c):
+    stream = c.get("stream")
+    if stream == "session":
+        problems, _ = run_session(c)
+        return "; ".join(f"{s}: {t}" for s, t in problems) or None
+    if stream == "verify" and "record" in c:
+        rec = c["record"]
+        ident = refacc.Identity(lambda n: bytes(n), acc_id=unhx(rec["acc_id"]), ios_id=rec["ios_id"])
+        ident.acc_ltsk = ed25519.Ed25519PrivateKey.from_private_bytes(unhx(rec["acc_ltsk"]))
+        ident.acc_ltpk = ident.acc_ltsk.public_key().public_bytes(**refacc.RAW)
+        ident.ios_ltsk = ed25519.Ed25519PrivateKey.from_private_bytes(unhx(rec["ios_ltsk"]))
+        ident.ios_ltpk = ident.ios_ltsk.public_key().public_bytes(**refacc.RAW)
+        m2 = [(k, unhx(v)) for k, v in c["m2"]]
+        m4 = [(k, unhx(v)) for k, v in c["m4"]]
+        res = []
+        for via_wire in (False, True):
+            try:
+                out = exchange(ident, unhx(c["eph"]), m2, m4, via_wire=via_wire)[0]
+            except Exception as e:  # noqa: BLE001
+                out = "not-expressible " + type(e).__name__
+            ok = out.startswith("ok")
+            if ok != bool(c.get("legit")) and not out.startswith("not-expressible"):
+                res.append(f"{'IP/CoAP decoding' if via_wire else 'decoded list'}: {'keys returned for a reply that is not the genuine one' if ok else 'genuine exchange failed: ' + out[:60]}")
+        return "; ".join(res) or None
+    if stream == "resume-errval":
+        ident = refacc.Identity(lambda n: bytes(range(n)))
+        prev = unhx(c["prev"])
+
+        def derive(salt, info, length=32):
+            return refacc.hk(prev, salt, info, length)
+        m2 = [(k, unhx(v)) for k, v in c["m2"]]
+        with pinned(unhx(c["eph"])):
+            g = P.get_session_keys(ident.pairing_data(), unhx(c["sid"]), derive)
+            g.send(None)
+        try:
+            g.send(L(m2) if c["form"] == "list" else dict(TLV.decode_bytearray(bytearray(TLV.encode_list(L(m2))))))
+            return "the attempt went on after a reply carrying an Error item"
+        except StopIteration:
+            return "session keys returned for a resume reply carrying an Error item"
+        except Exception:  # noqa: BLE001
+            return None
     return None
